@@ -16,13 +16,13 @@ import (
 )
 
 type qOpts struct {
-	noLimit      bool // never emit LIMIT/OFFSET
-	noOrder      bool
-	noRange      bool
-	noSubquery   bool
-	noCrosstab   bool
-	noHaving     bool
-	noShift      bool
+	noLimit       bool // never emit LIMIT/OFFSET
+	noOrder       bool
+	noRange       bool
+	noSubquery    bool
+	noCrosstab    bool
+	noHaving      bool
+	noShift       bool
 	deterministic bool // only constructs whose row multiset is fully determined (LIMIT only with a total ORDER BY is still excluded)
 	pastUntilBias bool // prefer UNTIL values before the newest stored period
 	fullRange     bool // always give explicit absolute ASOF and UNTIL (result independent of the database clock)
